@@ -28,9 +28,23 @@ theorem C18_listing_order_decision (es es' : List Ev) (q : Nat) (hp : es.Perm es
   rw [C18_listing_order es es' hp hd]
   exact ⟨rfl, rfl, rfl⟩
 
+/-- **The property's own sentence.** For a well-formed range, listed in any order, the OSV evaluation loop says
+"vulnerable" exactly when the version lies in an interval opened by an `introduced` event at or below it and not closed
+by a later `fixed` event at or below it or a later `last_affected` event strictly below it. -/
+theorem C18_decl (es : List Ev) (q : Nat) (h : WF es = true) : osvRange es q = osvDecl es q := by
+  unfold osvRange osvScan
+  rw [osvDecl_eq, declOn_perm q es (sortEvents es) (isort_perm evLt es).symm]
+  have hi := incr_of_WFfrom true none (sortEvents es) h
+  rw [fold_eq_decl q none (sortEvents es) false hi]
+  simp
+
 /-- Record level: with every range of the record well formed, `IsAffected` holds exactly when the
 specification's rule does (explicit listing, or an applicable range whose OSV evaluation is
 "vulnerable"), for the package's own ecosystem and name only. -/
+theorem C18_range_type (a : Affected) (r : Range) : rangeApplies a r = matchingType a r := by
+  unfold rangeApplies matchingType
+  cases r.typ <;> simp
+
 theorem C18_record (known : Nat → Bool) (vuln : List Affected) (p : Pkg)
     (hwf : ∀ a ∈ vuln, ∀ r ∈ a.ranges, WF r.events = true) :
     isAffected known vuln p = true ↔ specAffected known vuln p := by
@@ -43,12 +57,12 @@ theorem C18_record (known : Nat → Bool) (vuln : List Affected) (p : Pkg)
       refine ⟨a, ha, he, hn, ?_⟩
       rcases h with h | ⟨r, hr, hra, hrd⟩
       · exact Or.inl h
-      · exact Or.inr ⟨r, hr, hra, by rw [← C18_range r.events p.version (hwf a ha r hr)]; exact hrd⟩
+      · exact Or.inr ⟨r, hr, by rw [← C18_range_type]; exact hra, by rw [← C18_range r.events p.version (hwf a ha r hr)]; exact hrd⟩
     · rintro ⟨a, ha, he, hn, h⟩
       refine ⟨a, ha, ⟨he, hn⟩, ?_⟩
       rcases h with h | ⟨r, hr, hra, hrd⟩
       · exact Or.inl h
-      · exact Or.inr ⟨r, hr, hra, by rw [C18_range r.events p.version (hwf a ha r hr)]; exact hrd⟩
+      · exact Or.inr ⟨r, hr, by rw [C18_range_type]; exact hra, by rw [C18_range r.events p.version (hwf a ha r hr)]; exact hrd⟩
   · simp [hk]
 
 /-- Records for other packages or ecosystems never match — whatever their ranges contain
@@ -82,6 +96,8 @@ def exEvents : List Ev := [⟨.fixed, 5⟩, ⟨.intro, 0⟩, ⟨.last, 9⟩, ⟨
 example : WF exEvents = true := by decide
 example : (rangeDecision exEvents 3, rangeDecision exEvents 5, rangeDecision exEvents 9, rangeDecision exEvents 10)
     = (true, false, true, false) := by decide
+example : (osvDecl exEvents 3, osvDecl exEvents 5, osvDecl exEvents 9, osvDecl exEvents 10) = (true, false, true, false) := by decide
+
 example : ∀ a b, a ∈ exEvents → b ∈ exEvents → a.v = b.v → a = b := by
   have h : ∀ a ∈ exEvents, ∀ b ∈ exEvents, a.v = b.v → a = b := by decide
   intro a b ha hb; exact h a ha b hb
